@@ -20,7 +20,9 @@ failed_tests=$(sed 's/\x1b\[[0-9;]*m//g' /tmp/confirm/$id.suite.log | grep -E "^
 fails=0; flaky=""
 for t in $failed_tests; do
   # timing-sensitive tests flake when the machine is loaded: re-run alone (still with the patch applied)
-  if (cd "$wt" && PYTHONPATH="$wt" timeout 900 /venv/bin/python -m pytest -q -p no:cacheprovider "$t" >/dev/null 2>&1); then flaky="$flaky $t"; else fails=$((fails+1)); fi
+  if (cd "$wt" && PYTHONPATH="$wt" timeout 900 /venv/bin/python -m pytest -q -p no:cacheprovider "$t" >/dev/null 2>&1); then flaky="$flaky $t";
+  elif ! (cd /repo && timeout 900 /venv/bin/python -m pytest -q -p no:cacheprovider "$t" >/dev/null 2>&1); then flaky="$flaky $t(also-fails-on-unpatched-tree-under-load)";
+  else fails=$((fails+1)); fi
 done
 summary=$(tail -1 /tmp/confirm/$id.suite.log | sed 's/\x1b\[[0-9;]*m//g')
 echo "demo clean rc=$rc_clean (want 0); demo patched rc=$rc_patched (want !=0); suite extra failures=$fails (load-flaky, pass when re-run alone:$flaky); suite: $summary"
